@@ -328,6 +328,7 @@ def decide(prop, cfg, tier, seed, work, args, t0):
     guards = [verus_canary(work)]
     known = [k for k in load_known() if k['prop'] == prop]
     unit_results = []
+    unverifiable = []
     for unit in cfg.get('units', []):
         ur = run_verus_unit(unit, work)
         if ur['tool_errors']:
@@ -347,7 +348,10 @@ def decide(prop, cfg, tier, seed, work, args, t0):
                     if found and found.get('replayed_natively'):
                         hits.append((f, found))
             if not hits:
-                raise Inconclusive(reason)
+                # this unit is undecided; the other units, Kani / native / Python jobs of the property still run: a violation
+                # found there is reported, otherwise the check ends inconclusive (exit 2)
+                unverifiable.append(reason)
+                continue
             rdir = os.path.join(HERE, 'replays', prop)
             os.makedirs(rdir, exist_ok=True)
             for (f, found) in hits:
@@ -589,6 +593,10 @@ def decide(prop, cfg, tier, seed, work, args, t0):
     n_real = len(out_lines)
     if undecided and n_real == 0:
         raise Inconclusive("proof text lost its anchors and no counterexample replayed: " + ' | '.join(undecided)[:1500])
+    if unverifiable and n_real == 0:
+        raise Inconclusive(' | '.join(unverifiable)[:1500])
+    for u in unverifiable:
+        print("  note: %s (undecided part; the violation below was found elsewhere)" % u[:300])
     for ln in out_lines:
         print(ln)
     print("%s: %d obligations, %d discharged, %d known findings, %d violations, %d bounded checks, %.1fs" % (
